@@ -144,7 +144,7 @@ pub fn scenarios(ctx: &Ctx) -> Vec<Scenario> {
         v.push(scenario(format!("sha/L{l}/M{m}/{mode:?}"), move |c| one::<Sha>(c, i, l, m, mode, ex)));
         v.push(scenario(format!("shake/L{l}/M{m}/{mode:?}"), move |c| one::<Shake>(c, i, l, m, mode, ex)));
     };
-    let big: &[(usize, usize)] = ctx.t(&[(0, 5), (10, 0), (10, 5), (1, 17), (33, 2), (40, 24), (2, 70), (170, 1)][..], &[(0, 5), (10, 0), (10, 5), (1, 17), (33, 2), (5, 5), (100, 10), (2, 64), (256, 1), (0, 33)][..]);
+    let big: &[(usize, usize)] = ctx.t(&[(0, 5), (10, 0), (10, 5), (1, 17), (33, 2), (40, 24), (2, 70), (170, 1), (1, 130), (63, 0), (64, 0), (30, 33)][..], &[(0, 5), (10, 0), (10, 5), (1, 17), (33, 2), (5, 5), (100, 10), (2, 64), (256, 1), (0, 33)][..]);
     for &(l, m) in big {
         push(&mut v, l, m, Mode::Commit, false);
         if m == 0 {
